@@ -117,7 +117,15 @@ def nonneg(e: ast.AST, known: frozenset[str], ranges: set[str]) -> bool:
     if isinstance(e, ast.BinOp) and isinstance(e.op, (ast.Add, ast.Mult)):
         return nonneg(e.left, known, ranges) and nonneg(e.right, known, ranges)
     if isinstance(e, ast.IfExp):
-        return nonneg(e.body, known, ranges) and nonneg(e.orelse, known, ranges)
+        kb, ko = known, known
+        t = e.test
+        if isinstance(t, ast.Compare) and len(t.ops) == 1 and isinstance(t.left, ast.Name) \
+                and isinstance(t.comparators[0], ast.Constant) and t.comparators[0].value == 0:
+            if isinstance(t.ops[0], ast.Lt):
+                ko = known | {t.left.id}
+            elif isinstance(t.ops[0], ast.GtE):
+                kb = known | {t.left.id}
+        return nonneg(e.body, kb, ranges) and nonneg(e.orelse, ko, ranges)
     return False
 
 
